@@ -6,7 +6,7 @@ props=${@:-C01 C02 C03 C04 C05 C06 C07 C08 C09 C10 C11 C12 C13 C14 C15 C16 C17 C
 tag=$(basename $tree)
 res=""
 for p in $props; do
-  out=$(VERIF_REPO=$tree VERIF_EVID=/tmp/refrun/evid-$tag VERIF_REPLAYS=/tmp/refrun/replays-$tag python3-vt /verif/check.py $p 2>&1); rc=$?
+  out=$(VERIF_REPO=$tree VERIF_EVID=/tmp/refrun/evid-$tag VERIF_REPLAYS=/tmp/refrun/replays-$tag python3-vt ${V:-/verif}/check.py $p 2>&1); rc=$?
   res="$res $p:$rc"
   if [ $rc -ne 0 ]; then echo "$out" | grep -E "VIOLATION|^INCONCLUSIVE|^   C" | head -4 | cut -c1-300; fi
 done
